@@ -25,7 +25,7 @@ def gen_image(rng, n, arch=None, small_identity=False):
         "disc_number": rng.choice([1, 1, 2, 3, 10, 11]), "disc_count": rng.choice([1, 3, 12]),
         "checksums": dict((t, hexstr(rng, {"md5": 32, "sha1": 40, "sha256": 64, "sha512": 128}[t]))
                           for t in subset(rng, pools.CHECKSUM_TYPES, 1, 3)),
-        "implant_md5": rng.choice([None, hexstr(rng, 32), hexstr(rng, 32).upper()]),
+        "implant_md5": rng.choice([None, hexstr(rng, 32)]),
         "bootable": rng.random() < 0.5,
         "subvariant": pick(rng, SUBVARIANTS),
         "unified": unified,
@@ -57,7 +57,7 @@ def gen_content(rng, max_images=8, unique=True):
             continue
         seen.add(key)
         K["imgs"].append(img)
-    if rng.random() < 0.1:
+    if rng.random() < 0.15:
         # a whole manifest of names that differ ONLY in one non-ASCII character (same length, same position)
         for i, img in enumerate(K["imgs"]):
             img["path"] = "Server/iso/Fedora-%sdition%s.iso" % ("\u00e9\u00fc\u00f6\u00e0\u00f1\u4e2d\u00e7\u00e5"[i % 8], "" if i < 8 else str(i // 8))
@@ -226,6 +226,8 @@ def valid_mutation(K, rng, slot=0):
         f, v = pick(rng, [("mtime", rng.randint(5, 10 ** 9)), ("size", rng.randint(5, 10 ** 12)), ("volume_id", "changed"),
                           ("bootable", rng.random() < 0.5), ("path", "moved/img-%d" % i)])
         o = {"op": "img_set", "iid": i, "field": f, "value": v}
+    elif rng.random() < 0.3:
+        o = {"op": "im_set", "field": "label", "value": None if K["compose"].get("label") else pick(rng, ["RC-1.0", "Beta-2.3"])}
     else:
         o = {"op": "im_set", "field": "respin", "value": rng.randint(3, 9)}
     o.update(sl)
@@ -251,7 +253,7 @@ IMG_POISON = [
 ]
 COMPOSE_POISON = [
     ("id", [None, 123, "", "abc"]),
-    ("date", [None, 20150522, "2015", "2015052a"]),
+    ("date", [None, 20150522, "2015", "2015052a", "2015052", "201552", "20150522 "]),
     ("type", [None, "prod", "Production"]),
     ("respin", [None, "0", 1.5]),
     ("label", pools.LABELS_BAD),
